@@ -354,3 +354,47 @@ PROPS["C17"] = {
     "level_note": "x compared with relative tolerance 1e-9, y with 1e-12",
     "assumptions": ["sequence numbers are contiguous per attack and timestamps do not decrease with the sequence number (what one attack produces, C05)"],
 }
+
+PROPS["C15"] = {
+    "title": "Targeters hand out each target exactly once under concurrent use",
+    "units": [{"name": "plain", "pkg": "lib", "run": "^TestC15"},
+              {"name": "race", "pkg": "lib", "run": "^TestC15", "race": True, "shards_quick": 4, "shards_thorough": 16}],
+    "rule": "rapid draws configurations: 1..64 goroutines released by a barrier; stream inputs of 1..5000 targets in "
+            "http and JSON format (0..4 headers, optional bodies, optionally padded lines up to 4 KiB) where the index of "
+            "the target is embedded in method, URL, every header value and body; static targeters of 1..17 targets with "
+            "0..200000 total draws; optional Gosched between draws. Each configuration runs on the real scheduler in a "
+            "plain and in a -race binary. Non-trivial = >= 2 goroutines that each obtained >= 1 target; distinct = "
+            "distinct configuration.",
+    "explanation": "Oracle: stream: every returned target is internally consistent (all embedded indices agree), the "
+                   "multiset of delivered indices is exactly 0..n-1 once each, the only error is ErrNoTargets, which every "
+                   "goroutine gets and keeps getting; static: every returned target is intact and after n draws each of "
+                   "the k targets was used floor(n/k) or ceil(n/k) times; a data race report whose stack touches "
+                   "vegeta's code is a violation.",
+    "technique": "generated-configuration stress on the real scheduler with an exact multiset oracle, plain and under the race detector (rapid draws the configuration)",
+    "level_text": "schedule search by 16-core stress, not an enumeration of interleavings: a race with a very narrow "
+                  "window can escape; the race detector independently flags unsynchronised accesses it observes",
+    "level_note": "the interleaving is not reproducible from the seed; the saved configuration is the replay unit",
+    "assumptions": [],
+}
+
+PROPS["C05"] = {
+    "title": "Sequence order and timestamp order of results agree",
+    "units": [{"name": "plain", "pkg": "lib", "run": "^TestC05", "shards_quick": 4, "shards_thorough": 8, "timeout_thorough": 3000},
+              {"name": "race", "pkg": "lib", "run": "^TestC05", "race": True, "shards_quick": 1, "shards_thorough": 4, "env": {"VERIF_SCALE": "0.5"}}],
+    "rule": "rapid draws stress configurations: 1..512 workers (= max-workers) at unlimited rate, 2000..200000 hits per "
+            "attack, fake transport that returns at once / yields / sleeps 0..120 us / hangs every N-th request until a "
+            "5..25 ms client timeout cancels it, static or yielding targeter, GOMAXPROCS 2..16; each attack runs on the "
+            "real scheduler (plain and -race binaries). Non-trivial = an attack in which >= 1000 requests entered the "
+            "transport while another one was inside it (real overlap, measured by the fake); distinct = configuration. "
+            "counters.hits = results checked.",
+    "explanation": "Oracle over all results of an attack: sorted by seq the timestamps never decrease, seqs are 0..n-1; "
+                   "attack start <= Timestamp <= transport entry of the same seq (matched through X-Vegeta-Seq, monotonic "
+                   "clock on both sides); Latency >= 0 and >= the time the transport took; End() == Timestamp+Latency and "
+                   "not before the transport returned; feeding the results in completion order to plot.Add never fails.",
+    "technique": "generated-configuration stress on the real scheduler with an order/causality oracle, plain and under the race detector (rapid draws the configuration)",
+    "level_text": "schedule search by multi-core stress (>= 10^5 concurrent hits per quick run, >= 10^7 in the thorough "
+                  "tier), not an enumeration of interleavings; a race window of a few nanoseconds can escape a quick run",
+    "level_note": "inside a synctest bubble all concurrent hits would carry one virtual timestamp, which would make the "
+                  "check vacuous, so this property is decided on the real clock only",
+    "assumptions": ["time.Now() carries a monotonic reading on this platform"],
+}
